@@ -107,7 +107,7 @@ def grid_dataset(ctx, conv, shape, as_coords=True):
     return ds, cv, kinds
 
 
-def mesh_dataset(ctx, mesh, supply, start_index, fill, transposed=False, fill_value=None, coords_as_coords=False, with_edges=True, dtype='int32'):
+def mesh_dataset(ctx, mesh, supply, start_index, fill, transposed=False, fill_value=None, coords_as_coords=False, with_edges=True, dtype='int32', extra=None):
     from emsarray.conventions.ugrid import UGrid
     nodes, faces = builders.MESHES[mesh]
     ne = len(builders.mesh_edges(faces)[0])
@@ -124,6 +124,10 @@ def mesh_dataset(ctx, mesh, supply, start_index, fill, transposed=False, fill_va
         'id_edge': (('nedge',), clipcommon.ids((ne,))),
         'clock': (('t',), numpy.array([5.0, 6.0]), {'long_name': 'clock'}),
     }
+    if not ctx.symbolic:
+        # never decoded (built in memory / mask_and_scale=False): the fill value is an attribute. (Real files only: the
+        # model of the file round trip does not decode attributes.)
+        data['f_node'] = (('nnode',), numpy.array([1.5, 2.0, 2.5, 3.5, 4.5, 5.5, 6.5, 7.5, 8.5, 9.5][:len(nodes)]), {'_FillValue': numpy.float64(-999.0), 'units': 'm'})
     edge_order = None
     if {'face_edge', 'edge_face'} & set(supply) and 'edge_node' not in supply:
         # edges described through face_edge / edge_face only: the edge numbers mean something only if they follow the
@@ -137,8 +141,9 @@ def mesh_dataset(ctx, mesh, supply, start_index, fill, transposed=False, fill_va
         data = {k: v for k, v in data.items() if 'nedge' not in v[0]}
         ne = None
     ds = builders.ugrid(mesh, supply=supply, start_index=start_index, fill=fill, transposed=transposed, with_edges=with_edges, data_vars=data,
-                        edge_order=edge_order, fill_value=fill_value, coords_as_coords=coords_as_coords, dtype=dtype)
+                        edge_order=edge_order, fill_value=fill_value, coords_as_coords=coords_as_coords, dtype=dtype, **(extra or {}))
     ds['p_face'].encoding.update(dtype=numpy.dtype('int16'), scale_factor=0.01, _FillValue=numpy.int16(-1))
+    ds = ds.assign_coords(t=(('t',), numpy.array([10.0, 20.0])))
     ds.attrs['title'] = 'clip me'
     return ds, UGrid(ds), (nodes, faces, ne)
 
@@ -167,6 +172,20 @@ def run_clip(ctx, cv, chosen, clips, buffer, via):
                 outs.append(first)
                 ctx.check(unchanged(mask, msnap, what=('values', 'dims', 'names')), 'applying a clip mask leaves the mask as it was')
                 out = cv.apply_clip_mask(mask, wb)
+            elif via == 'dup_faces':
+                # a mask made from a list of faces that names one of them twice (two overlapping queries joined)
+                from emsarray.conventions.ugrid import mask_from_face_indexes
+                idx = numpy.array(list(chosen)[::-1] + list(chosen)[:1], dtype=numpy.intp)
+                out = cv.apply_clip_mask(mask_from_face_indexes(idx, cv.topology), wd)
+            elif via == 'same_dir':
+                # one mask, one working directory, a series of datasets with the same geometry and other time steps:
+                # each comes back with its own coordinates
+                mask = cv.make_clip_mask(clip, buffer=buffer)
+                sibling = cv.dataset.assign_coords(t=(('t',), numpy.array([1.0, 2.0])))
+                earlier = type(cv)(sibling).apply_clip_mask(mask, wd)
+                earlier = earlier.load() if not ctx.symbolic else earlier
+                ctx.check(list(numpy.asarray(earlier['t'].values, dtype=float)) == [1.0, 2.0], 'coordinates without spatial dimensions pass through unchanged')
+                out = cv.apply_clip_mask(mask, wd)
             else:
                 mask = cv.make_clip_mask(clip, buffer=buffer)
                 if via == 'saved_mask' and not ctx.symbolic:
@@ -346,6 +365,7 @@ def check_mesh_values(ctx, ds, out, info, kept_faces):
                 oks.append(same(res.values[tuple(r[d] for d in res.dims)], src.values[tuple(s[d] for d in src.dims)]))
         ctx.check(And(*oks), f'{name}: every selected element keeps every one of its values')
     ctx.check(bool(numpy.array_equal(numpy.asarray(out['clock'].values, dtype=float), [5.0, 6.0])), 'variables without mesh dimensions pass through unchanged')
+    ctx.check('t' in out.coords and list(numpy.asarray(out['t'].values, dtype=float)) == [10.0, 20.0], 'coordinates without spatial dimensions pass through unchanged')
     ctx.check(out.attrs.get('title') == 'clip me', 'global attributes pass through unchanged')
     ctx.check(dict(out['v_face'].attrs) == dict(ds['v_face'].attrs), 'variable attributes pass through unchanged, whatever they are called')
     mesh_attrs = next(v.attrs for v in ds.variables.values() if v.attrs.get('cf_role') == 'mesh_topology')
@@ -356,8 +376,8 @@ def check_mesh_values(ctx, ds, out, info, kept_faces):
 
 
 def body_mesh(ctx, mesh, supply, start_index, fill, buffer, via, check='values', transposed=False, fill_value=None, coords_as_coords=False,
-              with_edges=True, dtype='int32'):
-    ds, cv, info = mesh_dataset(ctx, mesh, supply, start_index, fill, transposed, fill_value, coords_as_coords, with_edges, dtype)
+              with_edges=True, dtype='int32', extra=None):
+    ds, cv, info = mesh_dataset(ctx, mesh, supply, start_index, fill, transposed, fill_value, coords_as_coords, with_edges, dtype, extra)
     nodes, faces, ne = info
     from harness import geomref
     geomref.check(ctx, ds, cv, kind='ugrid')
@@ -418,11 +438,17 @@ def cases(tier, check='values'):
                              # a node that no face uses: clipping with a geometry that covers every face still drops it
                              ('tqpx', ('edge_node', 'face_edge'), dict(start_index=0, fill='nan')),
                              ('tqpx', ('edge_node',), dict(start_index=1, fill='attr')),
+                             # start_index stored as the text "1" / "0"
+                             ('tqp', ('edge_node', 'face_edge'), dict(start_index=1, fill='attr', extra=dict(start_index_as_text=True))),
+                             ('qqq', ('edge_node', 'edge_face'), dict(start_index=0, fill='nan', extra=dict(start_index_as_text=True))),
                              # tables built in memory in other integer types (nothing in the encoding)
                              ('tqp', ('edge_node', 'face_edge'), dict(start_index=1, fill='attr', dtype='int64')),
                              ('tqp', ('edge_node', 'edge_face'), dict(start_index=0, fill='attr', dtype='int16', fill_value=-1))):
-        yield Case(f'{check}:mesh:{mesh}:{"+".join(supply)}:start{kw["start_index"]}:{kw["fill"]}:fill{kw.get("fill_value")}:coords{int(kw.get("coords_as_coords", False))}:edges{int(kw.get("with_edges", True))}:{kw.get("dtype", "int32")}:buf0:clip', body_mesh,
+        yield Case(f'{check}:mesh:{mesh}:{"+".join(supply)}:start{kw["start_index"]}:{kw["fill"]}:fill{kw.get("fill_value")}:coords{int(kw.get("coords_as_coords", False))}:edges{int(kw.get("with_edges", True))}:{kw.get("dtype", "int32")}{":text-start-index" if kw.get("extra") else ""}:buf0:clip', body_mesh,
                    dict(mesh=mesh, supply=supply, buffer=0, via='clip', check=check, **kw), patches=_patches, max_paths=2000)
+    for mesh, supply in (('tqp', ('edge_node', 'edge_face', 'face_face')), ('qqq', ('edge_node', 'face_edge', 'edge_face'))):
+        yield Case(f'{check}:mesh:{mesh}:{"+".join(supply)}:start1:nan:buf0:dup_faces', body_mesh,
+                   dict(mesh=mesh, supply=supply, start_index=1, fill='nan', buffer=0, via='dup_faces', check=check), patches=_patches, max_paths=2000)
     supplies = [(), ('edge_node',), ('edge_node', 'face_edge'), ('edge_node', 'edge_face'), ('edge_node', 'face_face'),
                 ('edge_node', 'face_edge', 'edge_face', 'face_face'),
                 # edges described through face_edge / edge_face only (edge numbers = first-seen order of the node pairs,
@@ -437,8 +463,10 @@ def cases(tier, check='values'):
             if mesh in ('fan', 'qqq') and fill == 'attr' and not ({'edge_face', 'face_face'} & set(supply)):
                 fill = 'nan'
             for buffer in ((0,) if q else (0, 1)):
-                for via in (('clip', 'mask_twice') if q else ('clip', 'mask', 'mask_twice')):
+                for via in (('clip', 'mask_twice', 'same_dir') if q else ('clip', 'mask', 'mask_twice', 'same_dir')):
                     if via == 'mask_twice' and q and k % 3 != 1:
+                        continue
+                    if via == 'same_dir' and k % 3 != 2:
                         continue
                     yield Case(f'{check}:mesh:{mesh}:{"+".join(supply) or "none"}:start{start_index}:{fill}:buf{buffer}:{via}', body_mesh,
                                dict(mesh=mesh, supply=supply, start_index=start_index, fill=fill, buffer=buffer, via=via, check=check),
